@@ -171,6 +171,10 @@ package placement
 //@   props C13
 //@   at checkApplyRules 1 assert [checks-applied-set] arg0 == callres("prepareRulesForApply", 1)
 //@   at prepareRulesForApply 1 assert [from-segment-rules] len(arg0) > 0
+//@   ensures [no-key-before-the-first-segment] r1 == nil ==> len(r0.ranges) > 0 && len(r0.ranges[0].startKey) == 0
+//@   loop 1 invariant len(points) > 0 && (len(rl.ranges) > 0 ==> len(rl.ranges[0].startKey) == 0)
+//@   loop 1 invariant len(rl.ranges) == 0 ==> (forall k :: 0 <= k && k <= rangeindex + 1 && k < len(points) ==> len(points[k].key) == 0)
+//@   loop 1 invariant rangeindex == len(points) - 1 ==> len(rl.ranges) > 0
 //@   option assumeframe
 //@   modifies nothing
 
